@@ -18,6 +18,7 @@ import (
 	"encoding/json"
 	"github.com/echovault/sugardb/internal"
 	"github.com/echovault/sugardb/internal/config"
+	"github.com/echovault/sugardb/internal/verifhook"
 	"github.com/hashicorp/raft"
 	"strconv"
 	"strings"
@@ -44,6 +45,7 @@ func NewFSMSnapshot(opts SnapshotOpts) *Snapshot {
 
 // Persist implements FSMSnapshot interface
 func (s *Snapshot) Persist(sink raft.SnapshotSink) error {
+	verifhook.Event("raft.snap.persist", s.options.config.ServerID)
 	s.options.startSnapshot()
 
 	msec, err := strconv.Atoi(strings.Split(sink.ID(), "-")[2])
